@@ -40,12 +40,19 @@ if "minimalloc" not in sys.modules:
         m = types.ModuleType("minimalloc")
 
         class Buffer:
-            def __init__(self, id="", lifespan=(0, 0), size=0, alignment=1, **kw):
+            # signature used by snaxc/transforms/snax_allocate.py: Buffer(id, start, end, size, alignment),
+            # attribute `end_time` is assigned afterwards; lifespan is the half-open [start_time, end_time)
+            def __init__(self, id="", start_time=0, end_time=0, size=0, alignment=1, **kw):
                 self.id = id
-                self.lifespan = lifespan
+                self.start_time = start_time
+                self.end_time = end_time
                 self.size = size
                 self.alignment = alignment
                 self.offset = None
+
+            @property
+            def lifespan(self):
+                return (self.start_time, self.end_time)
 
         class Problem:
             LOG = []  # every problem handed to the solver (harness reads this)
@@ -55,6 +62,10 @@ if "minimalloc" not in sys.modules:
                 self.capacity = capacity
 
             def solve(self):
+                """First fit in the given order; returns the list of offsets (what snax_allocate zips with
+                the buffers). Guarantees exactly the contract assumed of the absent solver: buffers whose
+                half-open lifespans intersect get disjoint ranges, offsets are multiples of the alignment,
+                offset + size <= capacity (else RuntimeError)."""
                 placed = []
                 for b in self.buffers:
                     off = 0
@@ -75,7 +86,7 @@ if "minimalloc" not in sys.modules:
                     b.offset = off
                     placed.append(b)
                 Problem.LOG.append(self)
-                return self
+                return [b.offset for b in self.buffers]
 
         m.Buffer = Buffer
         m.Problem = Problem
